@@ -43,7 +43,7 @@ def variants(p):
     return out
 
 
-def shrink(d, oracle, run_progs, rounds=4, name='shrink'):
+def shrink(d, oracle, run_progs, rounds=6, name='shrink'):
     """d: a failing case dict of run_B; oracle(case, exp) -> why|None; run_progs(progs, name) -> case dicts (with 'exp' for differing ones).
     Returns the smallest failing case found (possibly d itself)."""
     best = d
